@@ -352,7 +352,8 @@ public:
   std::vector<StateRec>                         st;
   std::vector<vf::Hash128>                      sthash;
   std::unordered_set<vf::Hash128, vf::Hash128H> seen;
-  std::set<std::string>                         poison;
+  std::set<std::string>                         poison;     // exact cases that killed an earlier run of this shard
+  std::set<std::pair<vf::Hash128, std::string>> poison_ops; // generalised: (state before the last op, last op)
   int                                           maxdepth;
   double                                        t_end;
   bool                                          cut_by_depth = false, deadline_hit = false;
@@ -400,7 +401,19 @@ public:
     for (auto &r : v.a) {
       Config          c;
       std::vector<Op> ops;
-      if (parse_replay(r, c, ops)) poison.insert(replay_json(c, ops, nullptr));
+      if (!parse_replay(r, c, ops)) continue;
+      poison.insert(replay_json(c, ops, nullptr));
+      if (ops.empty()) continue;
+      // the same operation from the same state (reached through any other history) would die the same way:
+      // replay the history without its last operation (it was survived before) and remember (state, op)
+      Ctx ctx;
+      ctx.checking = false;
+      vf::set_current_case(replay_json(c, ops, nullptr), F.name() + ":poison-setup");
+      Instance *in = F.fresh(c, ctx);
+      for (size_t i = 0; i + 1 < ops.size(); i++) F.apply(in, ops[i], ctx);
+      vf::Hash128 h = vf::hash128(c.name + "|" + F.key(in));
+      F.finish(in, ctx);
+      poison_ops.insert({ h, F.op_json(ops.back()) });
     }
   }
   bool parse_replay(const JV &r, Config &c, std::vector<Op> &ops) const
@@ -467,7 +480,7 @@ public:
     }
     for (auto &op : ops) {
       std::string js = replay_json(cfg, hist, &op);
-      if (poison.count(js)) {
+      if (poison.count(js) || (!poison_ops.empty() && poison_ops.count({ sthash[s], F.op_json(op) }))) {
         if (counting) rep.count("poisoned_cases_skipped");
         continue;
       }
